@@ -92,10 +92,10 @@ DEPENDS = {
     'C03': ('snapshot', 'gc', 'load', 'loc', 'local', 'listing'),
     'C04': ('restore', 'load', 'adapters', 'process'),
     'C05': ('snapshot', 'keys', 'adapters', 'loc', 'load'),
-    'C06': ('keys', 'load', 'gc', 'adapters'),
+    'C06': ('keys', 'load', 'gc', 'adapters', 'snapshot'),
     'C07': ('snapshot', 'loc', 'adapters', 'retry', 'gc', 'load', 'listing'),
     'C08': ('gc', 'load', 'loc', 'listing'),
-    'C09': ('snapshot', 'restore'),
+    'C09': ('snapshot', 'restore', 'retry'),
     'C10': (),          # the chunker units are listed by the property modules themselves (C10 carries the known finding D4)
     'C11': (),
     'C12': ('local', 's3', 'b2', 'retry', 'process'),
